@@ -268,6 +268,7 @@ theorem afterS_tail (f : List Var) (vs : VStack) (s : Stmt) : ∃ f', afterS (f 
   | ret _ => exact ⟨f, rfl⟩
   | ifs _ _ _ => exact ⟨f, rfl⟩
   | while_ _ _ => exact ⟨f, rfl⟩
+  | forRange _ _ _ _ _ _ => exact ⟨f, rfl⟩
 
 theorem afterB_tail : ∀ (b : Block) (f : List Var) (vs : VStack), ∃ f', afterB (f :: vs) b = f' :: vs
   | .nil, f, _ => ⟨f, rfl⟩
@@ -276,11 +277,214 @@ theorem afterB_tail : ∀ (b : Block) (f : List Var) (vs : VStack), ∃ f', afte
     simp only [afterB, h1]
     exact afterB_tail rest f1 vs
 
+/-! ## for loops: what the body leaves alone -/
+
+theorem pyExpr'_congr (lits : Lits) {σ σ' : Store} {e : Node} (h : ∀ x ∈ readsOf lits e, σ.get x = σ'.get x) :
+    pyExpr' lits σ e = pyExpr' lits σ' e := by
+  have hall : ((readsOf lits e).all fun v => (σ.get v).isSome) = ((readsOf lits e).all fun v => (σ'.get v).isSome) := by
+    apply Bool.eq_iff_iff.mpr
+    simp only [List.all_eq_true]
+    exact ⟨fun g x hx => by rw [← h x hx]; exact g x hx, fun g x hx => by rw [h x hx]; exact g x hx⟩
+  have hden : denotePy (pyEnv lits σ) e = denotePy (pyEnv lits σ') e := by
+    apply denotePy_congr lits
+    · intro id hid
+      cases hl : lits id with
+      | none => simp [hl] at hid
+      | some x => simp [pyEnv, hl]
+    · intro id hid
+      simp only [pyEnv, h id hid]
+  simp only [pyExpr', hall, hden]
+
+theorem visible_mono (f : List Var) (vs : VStack) (v : Var) (h : visible vs v = true) : visible (f :: vs) v = true := by
+  simp [visible, h]
+
+theorem exprOK_mono (lits : Lits) (f : List Var) {vs : VStack} {e : Node} (h : exprOK lits vs e = true) : exprOK lits (f :: vs) e = true := by
+  simp only [exprOK, Bool.and_eq_true, List.all_eq_true] at h ⊢
+  exact ⟨h.1, fun x hx => visible_mono f vs x (h.2 x hx)⟩
+
+theorem exprOK_not_reads (lits : Lits) {vs : VStack} {e : Node} {v : Var} (h : exprOK lits vs e = true) (hv : visible vs v = false) :
+    v ∉ readsOf lits e := by
+  simp only [exprOK, Bool.and_eq_true, List.all_eq_true] at h
+  intro hmem
+  rw [h.2 v hmem] at hv; cases hv
+
+/-- Python: executing statements changes only the names they may write -/
+theorem py_preserve (lits : Lits) : ∀ fuel,
+    (∀ σ b σ', pyExec lits fuel σ b = .ok (.normal σ') → ∀ x, x ∉ writes b → σ'.get x = σ.get x) ∧
+    (∀ σ s σ', pyStmt lits fuel σ s = .ok (.normal σ') → ∀ x, x ∉ writes (.cons s .nil) → σ'.get x = σ.get x) ∧
+    (∀ σ arms els σ', pyArms lits fuel σ arms els = .ok (.normal σ') → ∀ x, x ∉ writesArms arms ++ writes els → σ'.get x = σ.get x) ∧
+    (∀ σ v cur stop step body σ', pyFor lits fuel σ v cur stop step body = .ok (.normal σ') → ∀ x, x ∉ v :: writes body → σ'.get x = σ.get x) := by
+  intro fuel
+  induction fuel with
+  | zero =>
+    refine ⟨?_, ?_, ?_, ?_⟩
+    · intro σ b σ' h; simp [pyExec] at h
+    · intro σ s σ' h; simp [pyStmt] at h
+    · intro σ arms els σ' h; simp [pyArms] at h
+    · intro σ v cur stop step body σ' h; simp [pyFor] at h
+  | succ fuel ih =>
+    obtain ⟨ihB, ihS, ihA, ihF⟩ := ih
+    refine ⟨?_, ?_, ?_, ?_⟩
+    · intro σ b σ' h x hx
+      cases b with
+      | nil => simp only [pyExec] at h; cases h; rfl
+      | cons s rest =>
+        simp only [pyExec] at h
+        cases hs : pyStmt lits fuel σ s with
+        | error er => rw [hs] at h; cases h
+        | ok o =>
+          rw [hs] at h
+          cases o with
+          | returned r => cases h
+          | normal σ1 =>
+            simp only at h
+            have hx1 : x ∉ writes (.cons s .nil) ∧ x ∉ writes rest := by
+              cases s <;> simp_all [writes]
+            rw [ihB σ1 rest σ' h x hx1.2, ihS σ s σ1 hs x hx1.1]
+    · intro σ s σ' h x hx
+      cases s with
+      | assign v name e =>
+        simp only [pyStmt] at h
+        cases he : pyExpr' lits σ e with
+        | error er => rw [he] at h; cases h
+        | ok val =>
+          rw [he] at h
+          cases val with
+          | bool b => cases h
+          | int i =>
+            cases h
+            have : x ≠ v := by simp [writes] at hx; exact hx
+            exact Store.get_put_ne σ v x i this
+      | ret e =>
+        simp only [pyStmt] at h
+        cases he : pyExpr' lits σ e <;> rw [he] at h <;> cases h
+      | ifs arms he els =>
+        simp only [pyStmt] at h
+        exact ihA σ arms els σ' h x (by simpa [writes] using hx)
+      | while_ c body =>
+        simp only [pyStmt] at h
+        cases hc : pyExpr' lits σ c with
+        | error er => rw [hc] at h; cases h
+        | ok val =>
+          rw [hc] at h
+          cases val with
+          | int i => cases h
+          | bool b =>
+            cases b with
+            | false => cases h; rfl
+            | true =>
+              simp only at h
+              cases hb : pyExec lits fuel σ body with
+              | error er => rw [hb] at h; cases h
+              | ok ob =>
+                rw [hb] at h
+                cases ob with
+                | returned r => cases h
+                | normal σ1 =>
+                  simp only at h
+                  have hxb : x ∉ writes body := by simpa [writes] using hx
+                  rw [ihS σ1 (.while_ c body) σ' h x hx, ihB σ body σ1 hb x hxb]
+      | forRange v name b0 s0 t0 body =>
+        simp only [pyStmt] at h
+        cases hb : pyExpr' lits σ b0 with
+        | error er => rw [hb] at h; cases h
+        | ok vb =>
+          cases hs : pyExpr' lits σ s0 with
+          | error er => rw [hb, hs] at h; cases vb <;> cases h
+          | ok vs0 =>
+            cases ht : pyExpr' lits σ t0 with
+            | error er => rw [hb, hs, ht] at h; cases vb <;> cases vs0 <;> cases h
+            | ok vt =>
+              rw [hb, hs, ht] at h
+              cases vb <;> cases vs0 <;> cases vt <;> try (cases h)
+              simp only at h
+              split at h
+              · exact ihF σ v _ _ _ body σ' h x (by simpa [writes] using hx)
+              · cases h
+    · intro σ arms els σ' h x hx
+      cases arms with
+      | one c b =>
+        simp only [pyArms] at h
+        cases hc : pyExpr' lits σ c with
+        | error er => rw [hc] at h; cases h
+        | ok val =>
+          rw [hc] at h
+          cases val with
+          | int i => cases h
+          | bool bb =>
+            simp only [writesArms, List.mem_append, not_or] at hx
+            cases bb with
+            | true => exact ihB σ b σ' h x hx.1
+            | false => exact ihB σ els σ' h x hx.2
+      | more c b rest =>
+        simp only [pyArms] at h
+        cases hc : pyExpr' lits σ c with
+        | error er => rw [hc] at h; cases h
+        | ok val =>
+          rw [hc] at h
+          cases val with
+          | int i => cases h
+          | bool bb =>
+            simp only [writesArms, List.mem_append, not_or] at hx
+            cases bb with
+            | true => exact ihB σ b σ' h x hx.1.1
+            | false => exact ihA σ rest els σ' h x (by simp [hx.1.2, hx.2])
+    · intro σ v cur stop step body σ' h x hx
+      simp only [pyFor] at h
+      simp only [List.mem_cons, not_or] at hx
+      split at h
+      · split at h
+        · cases hb : pyExec lits fuel (σ.put v cur) body with
+          | error er => rw [hb] at h; cases h
+          | ok ob =>
+            rw [hb] at h
+            cases ob with
+            | returned r => cases h
+            | normal σ1 =>
+              simp only at h
+              rw [ihF σ1 v _ stop step body σ' h x (by simp [hx.1, hx.2]), ihB _ body σ1 hb x hx.2]
+              exact Store.get_put_ne σ v x cur hx.1
+        · cases h
+      · cases h; rfl
+
 /-- outcomes correspond: same returned value, or stores in the invariant at the resulting stack of visible names -/
 def RelOut (vs' : VStack) : Outcome Store → Outcome Frames → Prop
   | .normal σ', .normal fs' => Inv vs' σ' fs'
   | .returned a, .returned b => a = b
   | _, _ => False
+
+theorem shape_cons_inv {f : List Var} {vs : VStack} {fs : Frames} (h : Shape (f :: vs) fs) :
+    ∃ st fs', fs = st :: fs' ∧ frameOK f st ∧ Shape vs fs' := by
+  cases h with
+  | cons hf hs => exact ⟨_, _, rfl, hf, hs⟩
+
+theorem frameOK_single (v : Var) (b : Int) : frameOK [v] [(v, b)] := by
+  intro w
+  by_cases h : v = w
+  · subst h; simp [Store.get]
+  · have : ¬ w = v := fun e => h e.symm
+    simp [Store.get, h, this]
+
+/-- the state at the loop test of `for (auto v = …; …)`: the frame of the for statement holds `v`, Python has just bound it -/
+theorem inv_for {vs : VStack} {σ : Store} {fs0 : Frames} {st : Store} {v : Var} {cur : Int} (hi : Inv vs σ fs0) (hfr : frameOK [v] st)
+    (hcur : st.get v = some cur) (hvis : visible vs v = false) : Inv ([v] :: vs) (σ.put v cur) (st :: fs0) := by
+  refine ⟨.cons hfr hi.shape, ⟨fun w hw => ?_, hi.disj⟩, fun w x hg => ?_⟩
+  · have : w = v := by simpa using hw
+    subst this; exact hvis
+  · simp only [Frames.get] at hg
+    cases hw : st.get w with
+    | some y =>
+      rw [hw] at hg
+      have hc : [v].contains w = true := by rw [hfr w, hw]; rfl
+      have : w = v := by simpa using hc
+      subst this
+      rw [hcur] at hw; cases hw; cases hg
+      exact Store.get_put_same σ w _
+    | none =>
+      rw [hw] at hg
+      have hne : w ≠ v := fun e => by subst e; rw [hcur] at hw; cases hw
+      rw [Store.get_put_ne σ v w cur hne]
+      exact hi.agree w x hg
 
 /-- executing a nested block `{ … }`: push, run, pop -/
 theorem block_step (lits : Lits) {fuel : Nat} {vs : VStack} {σ : Store} {fs : Frames} {b : Block} {out : Outcome Store}
@@ -308,17 +512,26 @@ theorem sim (lits : Lits) : ∀ fuel,
       ∃ a r out', annotV vs (.cons s rest) = .cons a r ∧ r = annotV (afterS vs s) rest ∧ cStmt lits fuel fs a = .ok out' ∧ RelOut (afterS vs s) out out') ∧
     (∀ vs σ fs arms els out, armsOK lits vs arms = true → scopeOK lits ([] :: vs) els = true → Inv vs σ fs →
       pyArms lits fuel σ arms els = .ok out →
-      ∃ out', cArms lits fuel fs (annotVArms vs arms) (annotV ([] :: vs) els) = .ok out' ∧ RelOut vs out out') := by
+      ∃ out', cArms lits fuel fs (annotVArms vs arms) (annotV ([] :: vs) els) = .ok out' ∧ RelOut vs out out') ∧
+    (∀ vs σ st fs0 v cur si ti s0 t0 body out,
+      Inv vs σ fs0 → frameOK [v] st → st.get v = some cur → visible vs v = false →
+      exprOK lits vs s0 = true → exprOK lits vs t0 = true →
+      pyExpr' lits σ s0 = .ok (.int si) → pyExpr' lits σ t0 = .ok (.int ti) →
+      ((loopFixed lits v s0 t0).all fun x => !(writes body).contains x) = true →
+      scopeOK lits ([] :: [v] :: vs) body = true →
+      pyFor lits fuel σ v cur si ti body = .ok out →
+      ∃ out', popOut (cFor lits fuel (st :: fs0) v s0 t0 (annotV ([] :: [v] :: vs) body)) = .ok out' ∧ RelOut vs out out') := by
   intro fuel
   induction fuel with
   | zero =>
-    refine ⟨?_, ?_, ?_⟩
+    refine ⟨?_, ?_, ?_, ?_⟩
     · intro vs σ fs blk out _ _ h; simp [pyExec] at h
     · intro vs σ fs s rest out _ _ h; simp [pyStmt] at h
     · intro vs σ fs arms els out _ _ _ h; simp [pyArms] at h
+    · intro vs σ st fs0 v cur si ti s0 t0 body out _ _ _ _ _ _ _ _ _ _ h; simp [pyFor] at h
   | succ fuel ih =>
-    obtain ⟨ihB, ihS, ihA⟩ := ih
-    refine ⟨?_, ?_, ?_⟩
+    obtain ⟨ihB, ihS, ihA, ihF⟩ := ih
+    refine ⟨?_, ?_, ?_, ?_⟩
     · -- blocks
       intro vs σ fs blk out hok hi hp
       cases blk with
@@ -427,6 +640,30 @@ theorem sim (lits : Lits) : ∀ fuel,
                       simp only [annotV, ABlock.cons.injEq] at hann2; exact hann2.1.symm
                     subst ha2
                     exact ⟨o2, by simp [annotV], by simp [afterS], by simp [cStmt, hce, Val.repr, hcb, hc2], by simpa [afterS] using hr2⟩
+      | forRange v name b0 s0 t0 body =>
+        simp only [scopeOK, Bool.and_eq_true, Bool.not_eq_true'] at hok
+        obtain ⟨⟨⟨⟨⟨⟨⟨hb0, hs0⟩, ht0⟩, hvis⟩, _⟩, hfix⟩, hokb⟩, _⟩ := hok
+        simp only [pyStmt] at hp
+        cases hb : pyExpr' lits σ b0 with
+        | error er => rw [hb] at hp; cases hp
+        | ok vb =>
+          cases hs : pyExpr' lits σ s0 with
+          | error er => rw [hb, hs] at hp; cases vb <;> cases hp
+          | ok vs0 =>
+            cases ht : pyExpr' lits σ t0 with
+            | error er => rw [hb, hs, ht] at hp; cases vb <;> cases vs0 <;> cases hp
+            | ok vt =>
+              rw [hb, hs, ht] at hp
+              cases vb <;> cases vs0 <;> cases vt <;> try (cases hp)
+              rename_i b s t
+              simp only at hp
+              split at hp
+              · have hcb := expr_agree lits hi hb0 hb
+                obtain ⟨o', hc, hr⟩ := ihF vs σ [(v, b)] fs v b s t s0 t0 body out hi (frameOK_single v b) (by simp [Store.get]) hvis hs0 ht0 hs ht
+                  hfix hokb hp
+                exact ⟨.forRange v name b0 s0 t0 (annotV ([] :: [v] :: vs) body), annotV vs rest, o', by simp [annotV], by simp [afterS],
+                  by simp [cStmt, hcb, Val.repr, hc], by simpa [afterS] using hr⟩
+              · cases hp
     · -- arms
       intro vs σ fs arms els out hoka hoke hi hp
       cases arms with
@@ -466,6 +703,75 @@ theorem sim (lits : Lits) : ∀ fuel,
             | false =>
               obtain ⟨o', hc, hr⟩ := ihA vs σ fs rest els out hoka.2 hoke hi hp
               exact ⟨o', by simp [annotVArms, cArms, hce, Val.repr, hc], hr⟩
+    · -- for loops: from the loop test on
+      intro vs σ st fs0 v cur si ti s0 t0 body out hi hfr hcur hvis hs0 ht0 hps hpt hfix hokb hp
+      simp only [pyFor] at hp
+      have hi1 : Inv ([v] :: vs) (σ.put v cur) (st :: fs0) := inv_for hi hfr hcur hvis
+      have hnr_s := exprOK_not_reads lits hs0 hvis
+      have hnr_t := exprOK_not_reads lits ht0 hvis
+      have hps1 : pyExpr' lits (σ.put v cur) s0 = .ok (.int si) := by
+        rw [← hps]; apply pyExpr'_congr; intro x hx
+        exact Store.get_put_ne σ v x cur (fun e => hnr_s (e ▸ hx))
+      have hcs : cExpr lits (st :: fs0) s0 = .ok si := by
+        simpa [Val.repr] using expr_agree lits hi1 (exprOK_mono lits [v] hs0) hps1
+      have hgv : Frames.get (st :: fs0) v = some cur := by simp [Frames.get, hcur]
+      by_cases hlt : cur < si
+      · simp only [hlt, ↓reduceIte] at hp
+        by_cases h32 : inI32 (cur + ti) = true
+        · simp only [h32, ↓reduceIte] at hp
+          cases hb : pyExec lits fuel (σ.put v cur) body with
+          | error er => rw [hb] at hp; cases hp
+          | ok ob =>
+            rw [hb] at hp
+            obtain ⟨ob', hcb, hrb⟩ := block_step lits ihB hokb hi1 hb
+            cases ob with
+            | returned x =>
+              cases hp
+              cases ob' with
+              | normal _ => cases hrb
+              | returned y => exact ⟨.returned y, by simp only [cFor, hgv, hcs, hlt, ↓reduceIte, hcb]; rfl, hrb⟩
+            | normal σ1 =>
+              simp only at hp
+              cases ob' with
+              | returned _ => cases hrb
+              | normal fs1 =>
+                have hinv1 : Inv ([v] :: vs) σ1 fs1 := hrb
+                obtain ⟨st1, fs0', hfs1, hfr1, _⟩ := shape_cons_inv hinv1.shape
+                subst hfs1
+                have hpres : ∀ x, x ∉ writes body → σ1.get x = (σ.put v cur).get x := (py_preserve lits fuel).1 _ body σ1 hb
+                have hfixl : ∀ x ∈ loopFixed lits v s0 t0, x ∉ writes body := by
+                  simp only [List.all_eq_true] at hfix
+                  intro x hx hmem
+                  have := hfix x hx
+                  simp [hmem] at this
+                have hv1 : σ1.get v = some cur := by
+                  rw [hpres v (hfixl v (by simp [loopFixed]))]; exact Store.get_put_same σ v cur
+                have hst1 : st1.get v = some cur := by
+                  have h1 : (st1.get v).isSome = true := by rw [← hfr1 v]; simp
+                  cases hg : st1.get v with
+                  | none => rw [hg] at h1; cases h1
+                  | some x =>
+                    have := hinv1.agree v x (by simp [Frames.get, hg])
+                    rw [hv1] at this; cases this; rfl
+                have hagr : ∀ x, x ≠ v → x ∉ writes body → σ1.get x = σ.get x := fun x hxv hxw => by
+                  rw [hpres x hxw]; exact Store.get_put_ne σ v x cur hxv
+                have hps' : pyExpr' lits σ1 s0 = .ok (.int si) := by
+                  rw [← hps]; apply pyExpr'_congr; intro x hx
+                  exact hagr x (fun e => hnr_s (e ▸ hx)) (hfixl x (by simp [loopFixed, hx]))
+                have hpt' : pyExpr' lits σ1 t0 = .ok (.int ti) := by
+                  rw [← hpt]; apply pyExpr'_congr; intro x hx
+                  exact hagr x (fun e => hnr_t (e ▸ hx)) (hfixl x (by simp [loopFixed, hx]))
+                have hct : cExpr lits (st1 :: fs0') t0 = .ok ti := by
+                  simpa [Val.repr] using expr_agree lits hinv1 (exprOK_mono lits [v] ht0) hpt'
+                have hset : Frames.set (st1 :: fs0') v (cur + ti) = some (st1.put v (cur + ti) :: fs0') := by simp [Frames.set, hst1]
+                have hgv1 : Frames.get (st1 :: fs0') v = some cur := by simp [Frames.get, hst1]
+                obtain ⟨o2, hc2, hr2⟩ := ihF vs σ1 (st1.put v (cur + ti)) fs0' v (cur + ti) si ti s0 t0 body out (by simpa using Inv.pop hinv1)
+                  (frameOK_put hfr1 (by simp [hst1]) _) (Store.get_put_same _ _ _) hvis hs0 ht0 hps' hpt' hfix hokb hp
+                exact ⟨o2, by simp only [cFor, hgv, hcs, hlt, ↓reduceIte, hcb, hgv1, hct, h32, hset]; exact hc2, hr2⟩
+        · simp only [h32] at hp; cases hp
+      · simp only [hlt, ↓reduceIte] at hp
+        cases hp
+        exact ⟨.normal fs0, by simp [cFor, hgv, hcs, hlt, popOut], hi⟩
 
 end Tranp.Emit
 
@@ -655,6 +961,33 @@ theorem annotD_eq : ∀ (b : Block) (d : List (Scope × Var)) (k : Nat) (s : Sco
     obtain ⟨b1, b2, _⟩ := annotD_eq body d (k + 1) (s ++ [k]) ([] :: vs) (relV_enter hr hf) (fresh_enter hf)
     have hext := b2.toExt
     obtain ⟨r1, r2, r3⟩ := annotD_eq rest _ (annotD d (k + 1) (s ++ [k]) body).2.2 s vs (hext.relV hr) (hext.fresh hf)
+    simp only [annotD, annotV, afterB, afterS]
+    exact ⟨by rw [b1, r1], (hext.toColl hf).trans r2, r3⟩
+  | .cons (.forRange v name b0 s0 t0 body) rest, d, k, s, vs, hr, hf => by
+    have hr' : RelV (d ++ [(s ++ [k], v)]) (s ++ [k]) ([] :: [v] :: vs) := by
+      intro w
+      rw [related_append, relV_enter hr hf w]
+      simp only [related, List.any_cons, List.any_nil, Bool.or_false, isPrefix_refl, Bool.and_true, visible, List.contains_nil, Bool.false_or,
+        List.contains_cons]
+      rw [Bool.or_comm]
+      congr 1
+      exact Bool.eq_iff_iff.mpr ⟨fun h => by simpa using (beq_iff_eq.mp h).symm, fun h => by simpa using (beq_iff_eq.mp h).symm⟩
+    have hf' : Fresh (d ++ [(s ++ [k], v)]) (s ++ [k]) (k + 1) := by
+      intro x hx j t hxs
+      rcases List.mem_append.mp hx with h | h
+      · exact fresh_enter hf x h j t hxs
+      · simp only [List.mem_singleton] at h; subst h
+        have := congrArg List.length hxs
+        simp at this
+    obtain ⟨b1, b2, _⟩ := annotD_eq body (d ++ [(s ++ [k], v)]) (k + 1) (s ++ [k]) ([] :: [v] :: vs) hr' hf'
+    have hext : Ext d (annotD (d ++ [(s ++ [k], v)]) (k + 1) (s ++ [k]) body).2.1 s k (annotD (d ++ [(s ++ [k], v)]) (k + 1) (s ++ [k]) body).2.2 :=
+      ⟨fun x hx => b2.mono x (List.mem_append_left _ hx), fun x hx => by
+        rcases b2.new x hx with h | h
+        · rcases List.mem_append.mp h with h' | h'
+          · exact Or.inl h'
+          · simp only [List.mem_singleton] at h'; subst h'; exact Or.inr (isPrefix_refl _)
+        · exact Or.inr h, b2.le⟩
+    obtain ⟨r1, r2, r3⟩ := annotD_eq rest _ (annotD (d ++ [(s ++ [k], v)]) (k + 1) (s ++ [k]) body).2.2 s vs (hext.relV hr) (hext.fresh hf)
     simp only [annotD, annotV, afterB, afterS]
     exact ⟨by rw [b1, r1], (hext.toColl hf).trans r2, r3⟩
 theorem annotDArms_eq : ∀ (arms : Arms) (d : List (Scope × Var)) (k : Nat) (s : Scope) (vs : VStack), RelV d s vs → Fresh d s k →
